@@ -5,6 +5,7 @@ import (
 	"errors"
 
 	storetypes "cosmossdk.io/store/types"
+	"github.com/cosmos/cosmos-sdk/codec/address"
 	codectypes "github.com/cosmos/cosmos-sdk/codec/types"
 	sdk "github.com/cosmos/cosmos-sdk/types"
 	xchain "github.com/palomachain/paloma/v2/internal/x-chain"
@@ -43,30 +44,30 @@ var (
 	}
 )
 
-type vEVM struct {
+type VEVM struct {
 	Faults bool
 	Chains []string
 }
 
 var errVInjected = errors.New("injected evm keeper failure")
 
-func (e *vEVM) fault(label string) bool { return e.Faults && sym.Fault(label) }
+func (e *VEVM) fault(label string) bool { return e.Faults && sym.Fault(label) }
 
-func (e *vEVM) GetChainInfo(ctx context.Context, id string) (*evmtypes.ChainInfo, error) {
+func (e *VEVM) GetChainInfo(ctx context.Context, id string) (*evmtypes.ChainInfo, error) {
 	if e.fault("evm.GetChainInfo") {
 		return nil, errVInjected
 	}
 	return &evmtypes.ChainInfo{ChainReferenceID: id, ChainID: 1, SmartContractUniqueID: []byte("compass-1"), SmartContractAddr: "0x3333333333333333333333333333333333333333"}, nil
 }
 
-func (e *vEVM) PickValidatorForMessage(ctx context.Context, chainReferenceID string, req *xchain.JobRequirements) (string, string, error) {
+func (e *VEVM) PickValidatorForMessage(ctx context.Context, chainReferenceID string, req *xchain.JobRequirements) (string, string, error) {
 	if e.fault("evm.PickValidatorForMessage") {
 		return "", "", errVInjected
 	}
 	return vVals[0].String(), vEthAddrs[0], nil
 }
 
-func (e *vEVM) GetEthAddressByValidator(ctx context.Context, validator sdk.ValAddress, chainReferenceId string) (*types.EthAddress, bool, error) {
+func (e *VEVM) GetEthAddressByValidator(ctx context.Context, validator sdk.ValAddress, chainReferenceId string) (*types.EthAddress, bool, error) {
 	if e.fault("evm.GetEthAddressByValidator") {
 		return nil, false, errVInjected
 	}
@@ -79,7 +80,7 @@ func (e *vEVM) GetEthAddressByValidator(ctx context.Context, validator sdk.ValAd
 	return nil, false, nil
 }
 
-func (e *vEVM) GetValidatorAddressByEthAddress(ctx context.Context, ethAddr types.EthAddress, chainReferenceId string) (sdk.ValAddress, bool, error) {
+func (e *VEVM) GetValidatorAddressByEthAddress(ctx context.Context, ethAddr types.EthAddress, chainReferenceId string) (sdk.ValAddress, bool, error) {
 	for i, a := range vEthAddrs {
 		if ethAddr.GetAddress().Hex() == a {
 			return vVals[i], true, nil
@@ -88,36 +89,69 @@ func (e *vEVM) GetValidatorAddressByEthAddress(ctx context.Context, ethAddr type
 	return nil, false, nil
 }
 
-func (e *vEVM) HasAnySmartContractDeployment(ctx context.Context, chainReferenceID string) bool { return false }
-func (e *vEVM) GetActiveChainNames(ctx context.Context) []string {
+func (e *VEVM) HasAnySmartContractDeployment(ctx context.Context, chainReferenceID string) bool { return false }
+func (e *VEVM) GetActiveChainNames(ctx context.Context) []string {
 	if e.Chains != nil {
 		return e.Chains
 	}
 	return []string{vChain}
 }
 
-type vEnv struct {
-	k    Keeper
-	ctx  sdk.Context
-	ms   *models.MultiStore
-	bank *models.Bank
-	evm  *vEVM
+type VEnv struct {
+	K       Keeper
+	Ctx     sdk.Context
+	MS      *models.MultiStore
+	Bank    *models.Bank
+	EVM     *VEVM
+	Staking *models.Staking
+	Handler *VHandler
 }
+
+// VHandler records the claims whose effect was applied (attestation handler fake).
+type VHandler struct {
+	Applied []types.EthereumClaim
+	Fail    bool
+}
+
+func (h *VHandler) Handle(ctx context.Context, att types.Attestation, claim types.EthereumClaim) error {
+	if h.Fail && sym.Fault("handler.Handle") {
+		return errVInjected
+	}
+	h.Applied = append(h.Applied, claim)
+	return nil
+}
+
+// UseRealHandler installs the keeper's own attestation handler.
+func (e *VEnv) UseRealHandler() {
+	e.K.AttestationHandler = AttestationHandler{keeper: &e.K}
+}
+
+// OverrideNonce exposes the governance / chain-activation nonce reset.
+func (e *VEnv) OverrideNonce(chain string, nonce uint64) error {
+	return e.K.overrideNonce(e.Ctx, chain, nonce)
+}
+
+func (e *VEnv) SetLatestCompassID(chain, id string) { e.K.setLatestCompassID(e.Ctx, chain, id) }
 
 func vRegister(r codectypes.InterfaceRegistry) { types.RegisterInterfaces(r) }
 
-// newVEnv wires the real skyway keeper at the given block height.
-func newVEnv(height int64) *vEnv {
+// NewVEnv wires the real skyway keeper at the given block height.
+func NewVEnv(height int64) *VEnv {
 	ctx, ms := models.NewContext(height)
 	bank := models.NewBank()
-	evm := &vEVM{}
+	evm := &VEVM{}
+	staking := models.NewStaking()
+	handler := &VHandler{}
 	k := Keeper{
-		cdc:         models.Codec(vRegister),
-		bankKeeper:  bank,
-		EVMKeeper:   evm,
-		storeGetter: NewSkywayStoreGetter(storetypes.NewKVStoreKey(types.StoreKey)),
-		authority:   "authority",
+		cdc:                models.Codec(vRegister),
+		bankKeeper:         bank,
+		EVMKeeper:          evm,
+		StakingKeeper:      staking,
+		storeGetter:        NewSkywayStoreGetter(storetypes.NewKVStoreKey(types.StoreKey)),
+		authority:          "authority",
+		AddressCodec:       address.NewBech32Codec("palomavaloper"),
+		AttestationHandler: handler,
 	}
-	env := &vEnv{k: k, ctx: ctx, ms: ms, bank: bank, evm: evm}
+	env := &VEnv{K: k, Ctx: ctx, MS: ms, Bank: bank, EVM: evm, Staking: staking, Handler: handler}
 	return env
 }
